@@ -295,6 +295,10 @@ func checkC03(w *World, r *Report) {
 		}
 	}
 	r.floor("C03.panic-conversion", "binder adapters", nad, 2)
+	// ... "that wraps the original": errors.Is / errors.As / unwrap-error reach the panic value of a builtin
+	r.include("C03.builtin-", "C20.", "a panic of a builtin reaches catch as an error that still wraps the panic value (the original stays reachable with errors.Is / unwrap-error)", checkC20, func(rule string) bool {
+		return rule == "C20.panic"
+	})
 	ruleWrap(w, r)
 	rulePropagate(m, r)
 }
@@ -464,32 +468,7 @@ func ruleObject(m *evalModel, r *Report, e *Engine, reg map[*ssa.BasicBlock]bool
 	} else {
 		r.undecided("C03.object", nil, "LispError.ErrorValue", token.NoPos, "method no longer resolves")
 	}
-	if fn := le("(LispError).Unwrap"); fn != nil {
-		okU, allU := false, true
-		for _, rt := range m.returns(fn) {
-			v := rt[1].(ssa.Value)
-			if isNilConst(v) {
-				continue
-			}
-			isStored := false
-			if ex, ok := v.(*ssa.Extract); ok {
-				if ta, ok := ex.Tuple.(*ssa.TypeAssert); ok && strings.HasSuffix(describeVal(e, ta.X, 0), ".err") {
-					isStored = true
-				}
-			}
-			if ta, ok := v.(*ssa.TypeAssert); ok && strings.HasSuffix(describeVal(e, ta.X, 0), ".err") {
-				isStored = true
-			}
-			if isStored {
-				okU = true
-			} else {
-				allU = false
-			}
-		}
-		r.check(okU && allU, "C03.object", fn, "Unwrap", fn.Pos(), "every return is the stored object (when it is an error) or nil", "Unwrap returns something other than the stored error on some path (a link of the chain is skipped): errors.Is / errors.As no longer see the error that was returned or thrown")
-	} else {
-		r.undecided("C03.object", nil, "LispError.Unwrap", token.NoPos, "method no longer resolves")
-	}
+	unwrapRule(w, r, m, e, "C03.object")
 	if fn := le("(LispError).Is"); fn == nil {
 		r.bad("C03.object", nil, "LispError.Is", token.NoPos, "method Is(error) bool is gone")
 	}
@@ -752,6 +731,60 @@ func rulePropagate(m *evalModel, r *Report) {
 							work = append(work, cur.Succs...)
 						}
 						r.check(problem == "", "C03.propagate", fn, "after "+c.Call.StaticCallee().Name()+" failed", c.Pos(), "every path returns that error", problem)
+					}
+				}
+			}
+		}
+	}
+	// the error of a nested evaluation kept in a variable is not overwritten with an error made on the spot
+	// where the variable is known to hold that error
+	for _, fn := range checkedIn {
+		for _, b := range fn.Blocks {
+			for _, in := range b.Instrs {
+				st0, ok := in.(*ssa.Store)
+				if !ok {
+					continue
+				}
+				x, ok := st0.Val.(*ssa.Extract)
+				if !ok || !isErrorType(x.Type()) {
+					continue
+				}
+				c, ok := x.Tuple.(*ssa.Call)
+				if !ok || !isEvalCallee(c.Call.StaticCallee()) {
+					continue
+				}
+				cell := cellOf(st0.Addr)
+				if cell == nil {
+					continue
+				}
+				// (the variable's address may be handed to the recover handler: the stores of this function are
+				// what matters here)
+				var sameFn []*ssa.Store
+				for _, b2 := range fn.Blocks {
+					for _, in2 := range b2.Instrs {
+						if s2, ok := in2.(*ssa.Store); ok && s2.Addr == st0.Addr {
+							sameFn = append(sameFn, s2)
+						}
+					}
+				}
+				for _, st1 := range sameFn {
+					if st1 == st0 || st1.Parent() != fn || !b.Dominates(st1.Block()) || len(existingErrorLeaves(st1.Val, 0)) > 0 || isNilConst(st1.Val) {
+						continue
+					}
+					// ... under a test that the variable is not nil
+					for _, a := range knownConds(st1.Block()) {
+						bo, ok := a.v.(*ssa.BinOp)
+						if !ok || !isNilConst(bo.Y) {
+							continue
+						}
+						ld, isLd := bo.X.(*ssa.UnOp)
+						if !isLd || cellOf(ld.X) != cell {
+							continue
+						}
+						if (bo.Op == token.NEQ && a.pol) || (bo.Op == token.EQL && !a.pol) {
+							nf++
+							r.bad("C03.propagate", fn, "error of "+c.Call.StaticCallee().Name()+" replaced", st1.Pos(), "where the variable holds the error of the nested evaluation it is assigned an error built on the spot ("+describeVal(m.e, st1.Val, 0)+"): the thrown value is lost - catch receives the replacement, and errors.Is / ErrorValue at the Go caller no longer find the original")
+						}
 					}
 				}
 			}
@@ -1435,7 +1468,10 @@ func checkC12(w *World, r *Report) {
 	}
 	r.check(okApp, "C12.flag", m.EVAL, "application ignores the macro flag", token.NoPos, "no use of IsMacro/GetMacro", "function application depends on the macro flag")
 	ruleQQ(m, r, e)
-	r.rule("C12.lisp", "every defmacro in the embedded headers binds a (fn …) literal (so the defmacro region's function check is met by library code)")
+	// "all macros ... applied to any operands": a call form is a call form whether it was read from text or
+	// built by the program (symbol, list, a macro's own expansion): positions take no part in recognising it
+	positionBlindRule(w, r, "C12.position-blind")
+	r.rule("C12.lisp", "every defmacro in the embedded headers binds a (fn …) literal, possibly wrapped in let/do forms that end in it (so the defmacro region's function check is met by library code)")
 	if files, err := w.lispFiles(); err == nil {
 		nm := 0
 		for _, f := range files {
@@ -1445,8 +1481,8 @@ func checkC12(w *World, r *Report) {
 						return
 					}
 					nm++
-					okFn := len(s.items) == 3 && s.items[1].kind == "sym" && s.items[2].head() == "fn"
-					st, detail := "discharged", "name and (fn …) literal"
+					okFn := len(s.items) == 3 && s.items[1].kind == "sym" && yieldsFn(s.items[2], 0)
+					st, detail := "discharged", "name and a form that yields a (fn …) literal"
 					if !okFn {
 						st, detail = "violated", "defmacro without a symbol name and a (fn …) literal value"
 					}
@@ -2294,6 +2330,11 @@ func engineRule(w *World, r *Report, e *Engine) {
 	// "the callback is only ever handed forms together with the scope": a scope gives out values and accepts
 	// definitions through its methods - its table of bindings stays its own, so displaying a scope cannot rebind
 	tableEscapeRule(w, r, "C18.scope-table")
+	// ... nor does it write the positions of the forms it is shown (they are shared with the forms and with the
+	// errors the program goes on to raise)
+	r.rule("C18.position-intact", "the repository's debugger engine writes no field of a Position it did not allocate itself: what it displays about a form's position is computed on copies, so the errors of the debugged program name the same module and rows as without a stepper")
+	npw := positionWrites(w, r, e, "C18.position-intact", func(fn *ssa.Function) bool { return strings.HasSuffix(fnPkgPath(fn), "/debugger") })
+	r.add("C18.position-intact", nil, "writes to Position fields in package debugger", token.NoPos, "ok", fmt.Sprintf("%d examined", npw))
 	r.rule("C18.engine", "in package debugger the form handed to the Stepper callback never flows into the form argument of EVAL / REPL / Apply (the engine evaluates only expressions the user typed)")
 	var stepper *ssa.Function
 	for _, fn := range w.pkgFuncs("debugger") {
@@ -3247,4 +3288,69 @@ func loopErrorRule(w *World, r *Report, rule string, in func(*ssa.Function) bool
 	}
 	r.add(rule, nil, "calls with an error result inside loops", token.NoPos, "ok", fmt.Sprintf("%d examined", n))
 	r.floor(rule, "calls with an error result inside loops", n, 3)
+}
+
+// yieldsFn: the form is a (fn …) literal, or a let / do whose last form yields one (helpers shared by all
+// expansions bound around the macro's function).
+func yieldsFn(s *sx, depth int) bool {
+	if s == nil || depth > 3 {
+		return false
+	}
+	switch s.head() {
+	case "fn":
+		return true
+	case "let", "do":
+		return len(s.items) >= 2 && yieldsFn(s.items[len(s.items)-1], depth+1)
+	}
+	return false
+}
+
+// unwrapRule: LispError.Unwrap hands out the error it carries - that very link of the chain, not something
+// further down - or nil when it carries a value that is no error. errors.Is / errors.As walk the chain link
+// by link: a link that is skipped is an error nobody can find any more (the "pkg[fn]: %w" wrapper of a
+// panic in a bound function, the original behind it).
+func unwrapRule(w *World, r *Report, m *evalModel, e *Engine, rule string) {
+	fn := w.Fn("lisperror", "(LispError).Unwrap")
+	if fn == nil {
+		r.undecided(rule, nil, "LispError.Unwrap", token.NoPos, "method no longer resolves")
+		return
+	}
+	thrown := ""
+	if ev := w.Fn("lisperror", "(LispError).ErrorValue"); ev != nil {
+		if cs := e.accessorCases(ev); len(cs) == 1 && !cs[0].isNil {
+			thrown = cs[0].path
+		}
+	}
+	stored := func(x ssa.Value) bool {
+		if thrown != "" {
+			k := e.keyOf(x)
+			if k.Root == ssa.Value(fn.Params[0]) && k.Path == thrown {
+				return true
+			}
+		}
+		return strings.HasSuffix(describeVal(e, x, 0), ".err")
+	}
+	okU, allU := false, true
+	for _, rt := range (&evalModel{}).returns(fn) {
+		v := rt[1].(ssa.Value)
+		if isNilConst(v) {
+			continue
+		}
+		isStored := false
+		if ex, ok := v.(*ssa.Extract); ok {
+			if ta, ok := ex.Tuple.(*ssa.TypeAssert); ok && stored(ta.X) {
+				isStored = true
+			}
+		}
+		if ta, ok := v.(*ssa.TypeAssert); ok && stored(ta.X) {
+			isStored = true
+		}
+		if isStored {
+			okU = true
+		} else {
+			allU = false
+		}
+	}
+	_ = m
+	r.check(okU && allU, rule, fn, "Unwrap", fn.Pos(), "every return is the stored object (when it is an error) or nil", "Unwrap returns something other than the stored error on some path (a link of the chain is skipped): errors.Is / errors.As no longer see the error that was returned or thrown")
 }
